@@ -22,8 +22,8 @@ RULE = ("bipartite graphs enumerated exhaustively (quick: all graphs up to 3x4 v
         "shuffled/repeated neighbours, empty lists and sparse vertex ids")
 RULE += ("; structures adversarial for the routine's control flow (harness/hkgraphs.py): families of alternating chains "
          "with 1..k greedy-matched edges, k <= 10 (thorough 14), in the dict order that makes the greedy start wrong on "
-         "every chain (one Hopcroft-Karp phase per distinct length), equal-length families, single chains up to 40 "
-         "(thorough 168) edges deep, shuffled / relabelled / with stray edges -- as dicts (transliteration pair for pair, "
+         "every chain (one Hopcroft-Karp phase per distinct length), equal-length families, single chains up to 120 "
+         "(thorough 392) edges deep, shuffled / relabelled / with stray edges -- as dicts (transliteration pair for pair, "
          "real pairing through the proved checker) and embedded on the lattice as events, note onsets and multi-f0 "
          "frames; the caller's array dtype: whole-second events / boundaries / notes / MIDI numbers handed over as "
          "int64, int32 (lattice values also as float32) with estimates on and off the grid, same exact expectations")
